@@ -341,8 +341,8 @@ class Indicators(Underlying):
         For the moment, this is the product of indicators with > condition
         :param thresholds: the indicator function is equal to 1 if greater than the threshold, 0 otherwise
         """
-        self.thresholds = thresholds
-        self.log_thresholds = np.log(thresholds)
+        self.thresholds = np.array(thresholds, dtype=float)  # own copy: both representations use these values
+        self.log_thresholds = np.log(self.thresholds)
 
     def value(
         self, times, path: np.array, jump_path: np.array, payoff_underlying=None
